@@ -45,7 +45,7 @@ use std::{
 #[cfg(not(gdsl_verif))]
 use std::sync::{Mutex, MutexGuard, RwLock};
 #[cfg(gdsl_verif)]
-use crate::verif::RwLock;
+use crate::verif::{Mutex, MutexGuard, RwLock};
 
 use self::{
     adjacent::*,
